@@ -63,8 +63,8 @@ theorem stationary_is_minimiser (A : Matrix m n ℝ) (b : m → ℝ) (x : n → 
   linarith
 
 /-- C04.5b — **nearest least-squares fit**: if `x` is a least-squares stationary point and its
-displacement from the guess `x0` lies in the range of `Aᵀ` (which the iterates' displacement does,
-`step_orthogonal_to_kernel`), then among *all* least-squares stationary points `y`, `x` is the one
+displacement from the guess `x0` lies in the range of `Aᵀ` (which every step does,
+`GN.step_in_range_transpose` in `Ezpz/Real/LinearEntry.lean`, hence every sum of steps), then among *all* least-squares stationary points `y`, `x` is the one
 closest to `x0`: `‖y - x0‖² = ‖x - x0‖² + ‖y - x‖²`. -/
 theorem nearest_least_squares (A : Matrix m n ℝ) (b : m → ℝ) (x0 x : n → ℝ) (w : m → ℝ)
     (hstat : Aᵀ *ᵥ (A *ᵥ x - b) = 0) (hrange : x - x0 = Aᵀ *ᵥ w)
